@@ -216,6 +216,64 @@ def op_learn(t):
 OPS = {'learn': op_learn}
 
 
+def run(task):
+    return OPS[task['op']](task)
+
+
+def op_chain(t):
+    """
+    A chain of learner calls through the `weights` argument inside ONE process
+    (so aliasing between a result and a later call's input is observable).
+    pieces: [{learner: dict_ndl|ndl, events, method, n_jobs, per_job, per_file, make_data_array, convert}]
+    Every piece reads its events from its own file.  Returns the final weights,
+    and for every call whether the object handed in as `weights` (values,
+    coords, attrs) is unchanged afterwards — also checked again at the very end.
+    """
+    cd = CallDir()
+    try:
+        w = None
+        snaps = []          # (object, snapshot) of everything ever handed in
+        flags = []
+        n_events = []
+        for k, pc in enumerate(t['pieces']):
+            path = os.path.join(cd.inp, 'events_%d.tab.gz' % k)
+            write_event_file(path, [(list(c), list(o)) for c, o in pc['events']])
+            if w is not None and pc['learner'] == 'ndl' and not isinstance(w, xr.DataArray):
+                w = ndl.data_array(w)
+            snap = snapshot(w)
+            if w is not None:
+                snaps.append((w, snap))
+            try:
+                if pc['learner'] == 'dict_ndl':
+                    w2 = ndl.dict_ndl(path, fl(t['alpha']), (fl(t['beta1']), fl(t['beta2'])), fl(t['lambda']),
+                                      weights=w, remove_duplicates=POLICY[t['policy']],
+                                      make_data_array=bool(pc.get('make_data_array', False)))
+                else:
+                    w2 = ndl.ndl(path, fl(t['alpha']), (fl(t['beta1']), fl(t['beta2'])), fl(t['lambda']),
+                                 method=pc['method'], weights=w, n_jobs=int(pc.get('n_jobs', 2)),
+                                 n_outcomes_per_job=int(pc.get('per_job', 10)),
+                                 remove_duplicates=POLICY[t['policy']],
+                                 events_per_temporary_file=int(pc.get('per_file', 10000000)))
+            except Exception as e:  # noqa
+                r = err(e)
+                r['failed_piece'] = k
+                return r
+            flags.append(snapshot(w) == snap)
+            w = w2
+        res = da_to_result(w) if isinstance(w, xr.DataArray) else dict_to_result(w)
+        res['is_data_array'] = isinstance(w, xr.DataArray)
+        res['attrs'] = {k: str(v) for k, v in w.attrs.items()}
+        res['inputs_unmodified'] = flags
+        res['inputs_unmodified_at_end'] = [snapshot(o) == s for o, s in snaps]
+        res['leftovers'] = cd.leftovers()
+        return res
+    finally:
+        cd.close()
+
+
+OPS['chain'] = op_chain
+
+
 def _load_plugins():
     """every harness/impl_*.py contributes its own OPS dict"""
     import glob
@@ -227,7 +285,3 @@ def _load_plugins():
 
 
 _load_plugins()
-
-
-def run(task):
-    return OPS[task['op']](task)
